@@ -157,6 +157,14 @@ static void run(const Spec & sp, uint64_t seed, long n_iid, int n_grid, bool hos
     }
     std::string k, dt;
     if (!wellformed(ev, sp.name, emax, k, dt)) rec(st.wf, lab + "|" + k, dt);
+    if (sp.kind == 'B') {
+      // one decay of one nuclide (with its published short-lived daughter, where the name has one): none of the 69 published background
+      // names can emit two alpha particles in one event - two alphas are two decays glued together
+      int nalpha = 0;
+      for (auto & q : ev.get_particles())
+        if (q.is_alpha()) nalpha++;
+      if (nalpha > 1) rec(st.wf, lab + "|two-alpha-particles", fmt("%d alpha particles in one event of %s", nalpha, sp.name.c_str()));
+    }
     last_sig = hash_str(signature(ev));
     st.sigs.insert(last_sig);
     if (sp.kind == 'D') {
